@@ -1,19 +1,36 @@
 """C12 Sampler state is shared across workers and isolated between definitions."""
 
-_ALTS = lambda fam: [
-    dict(name="observed-key", cfg={"quick": f"MC_Samplers_{fam}_obs.cfg", "thorough": f"MC_Samplers_{fam}_obs_big.cfg"}),
-    dict(name="ideal-key", cfg={"quick": f"MC_Samplers_{fam}_ideal.cfg", "thorough": f"MC_Samplers_{fam}_ideal_big.cfg"}),
-    dict(name="ideal-key-per-rule", cfg={"quick": f"MC_Samplers_{fam}_noshare.cfg", "thorough": f"MC_Samplers_{fam}_noshare_big.cfg"}),
-]
+
+def _alts(fam):
+    # The property leaves open whether identical downstream samplers of different rules share
+    # (ideal-key) or not (ideal-key-per-rule).  observed-key is the registry key of the tree this was
+    # written against (sample.makeDynsamplerKey: prefix, type, rate/goal, fields); the code may only
+    # follow it while known_findings.json lists the deviation "key-collision" as open.  Once
+    # pending_fixes/C12-dynsampler-key-full-config.diff is applied the code conforms to ideal-key.
+    return [
+        dict(name="observed-key", cfg={"quick": f"MC_Samplers_{fam}_obs.cfg", "thorough": f"MC_Samplers_{fam}_obs_big.cfg"}),
+        dict(name="ideal-key", cfg={"quick": f"MC_Samplers_{fam}_ideal.cfg", "thorough": f"MC_Samplers_{fam}_ideal_big.cfg"}),
+        dict(name="ideal-key-per-rule", cfg={"quick": f"MC_Samplers_{fam}_noshare.cfg", "thorough": f"MC_Samplers_{fam}_noshare_big.cfg"}),
+    ]
+
 
 PROP = dict(
     level="model_checking",
-    technique="TLA+ spec Samplers.tla model-checked by TLC; every generated transition replayed into the real sample.SamplerFactory (spec->code transition tour)",
+    technique="TLA+ spec Samplers.tla (registry, per-worker caches, reload path, peer callback) model-checked by TLC; every generated transition replayed into the real sample.SamplerFactory and, at reload-atomic grain, into a real InMemCollector with its worker and monitor goroutines (spec->code transition tour)",
     design_ref="DESIGN.md §5 C12",
-    level_text="TODO",
-    level_note="TODO",
-    assumptions=["bounded"],
-    stages=[dict(kind="walk", name="Samplers-c12", module="Samplers", pkg="sample", test="TestVerifSamplers",
-                 harness=["sample/c12_export.go", "sample/c12_samplers_test.go"], alternatives=_ALTS("c12"),
-                 budget={"quick": 40, "thorough": 300}, dump_workers=8)],
+    level_text="TLC enumerates rules files (two destinations; a top-level sampler or a rules-based sampler with two downstream samplers of every dynsampler-backed type that differ in nothing, a tuning parameter, UseClusterSize, the field list or the rate; a destination named like another one's downstream prefix; deterministic and undefined destinations), 2-3 workers, every order of lazy sampler creation, configuration change, ClearDynsamplers, per-worker reload signals and worker cache clears, and checks on the model: at quiescence all workers hold the same live instances built from the file in force (WorkersShare), instances are never shared between destinations (DestsIsolated) nor between non-identical definitions (DefsIsolated), caches only change on the worker's own reload (CacheStable), the registry only shrinks in ClearDynsamplers. Every generated transition is then executed on the real SamplerFactory over rules files loaded and validated by the real config package, and (with ConfigChange+reloadConfigs as one step) on a real InMemCollector whose parked worker goroutines take one step at a time; after every step the dynsampler pointer behind every cached sampler, its registration and the unique_dynsampler_count gauge must equal the model's.",
+    level_note="Exhaustive only within the bound (2 destinations, <=2 downstream samplers each, 2 workers in the replay / 3 in TLC, <=2 configuration changes; three concrete tuning variants per sampler type). The unchanged tree conforms to the model with the registry key the code really computes (alternative observed-key), whose collisions are the open known finding C12-dynsampler-key-omits-config; with pending_fixes/C12-dynsampler-key-full-config.diff it conforms to the ideal key with no deviation. The sample-level replay emulates the collector's three-line reload plumbing (real in the collect-level replay, where the monitor goroutine cannot be held between ClearDynsamplers and the worker signals). Rules files are validated once per scenario; the replay's Config object skips re-validation on reload. dynsampler-go's internal rate state is not compared, only instance identity.",
+    assumptions=["bounded: 2 destinations, <=2 downstream samplers per rules-based sampler, 2-3 workers, <=2 configuration changes",
+                 "field-list order is not part of a definition (newTraceKey sorts it; the repo's own tests pin order-insensitive sharing)",
+                 "collect-level replay: workers are scheduled one step at a time through their pause channel; a pending reload signal is held back while a worker decides a trace"],
+    stages=[
+        dict(kind="tlc", name="Samplers-c12-mc", module="Samplers", cfg={"quick": None, "thorough": "MC_Samplers_c12_mc_big.cfg"}, workers=8, timeout=900),
+        dict(kind="tlc", name="Samplers-c12-mc3", module="Samplers", cfg={"quick": None, "thorough": "MC_Samplers_c12_mc3.cfg"}, workers=8, timeout=900),
+        dict(kind="walk", name="Samplers-c12", module="Samplers", pkg="sample", test="TestVerifSamplers",
+             harness=["sample/c12_export.go", "sample/c12_samplers_test.go"], alternatives=_alts("c12"),
+             budget={"quick": 60, "thorough": 360}, dump_workers=8),
+        dict(kind="walk", name="Samplers-collect", module="Samplers", pkg="collect", test="TestVerifSamplersCollect",
+             harness=["sample/c12_export.go", "collect/c12_collect_test.go"], alternatives=_alts("collect"),
+             budget={"quick": 60, "thorough": 300}, dump_workers=8),
+    ],
 )
